@@ -233,7 +233,7 @@ INVS = ["order-is-a-bijection", "connected-are-the-first-k+1-of-the-order", "par
 # The loop body, run from an ARBITRARY state that satisfies the loop invariant, is verified against a step contract whose clauses are
 # the per-iteration form of the property (mechanism anchors of C17: "Prim-style greedy loop over a masked cost matrix", "mask
 # bookkeeping for connected points and saturated parents").  These are clauses of the property, not proof structure: they are emitted
-# as obligations of kind `postcondition` (`.../step/<clause>`, and `.../loop-start/<clause>` for the state in which the loop is
+# as obligations of kind `postcondition` (`.../loop-step/<clause>`, and `.../loop-start/<clause>` for the state in which the loop is
 # entered) right before the loop invariant of the same content, which then finds them among its hypotheses.
 STEP = {
     "connected-are-the-first-k+1-of-the-order": "exactly-the-points-attached-so-far-are-marked-connected",
@@ -252,7 +252,7 @@ def step_hint(label, phase):
         goal = E.ghost.get(("c17-inv", label))
         if goal is None:
             goal = _inv(label, E, v, None)
-        E.prove(f"{FN}/{'loop-start' if phase == 'entry' else 'step'}/{STEP[label]}", goal, "postcondition", STEP_NOTE)
+        E.prove(f"{FN}/{'loop-start' if phase == 'entry' else 'loop-step'}/{STEP[label]}", goal, "postcondition", STEP_NOTE)
 
     return h
 
@@ -277,11 +277,11 @@ def after_pick(which):
         a, b = _q("a", "b")
         if which == "chosen-edge-joins-connected-unsaturated-to-unconnected":
             goal = z3.And(s.inr(i), s.inr(j), s.cand(i, j))
-            E.prove(f"{FN}/step/{which}", goal, "postcondition", STEP_NOTE)
+            E.prove(f"{FN}/loop-step/{which}", goal, "postcondition", STEP_NOTE)
             return goal
         if which == "chosen-edge-minimises-length-plus-bf-times-path-length-over-exactly-the-candidates":
             goal = z3.ForAll([a, b], z3.Implies(z3.And(s.inr(a), s.inr(b), s.cand(a, b)), s.cost(i, j) <= s.cost(a, b)))
-            E.prove(f"{FN}/step/{which}", goal, "postcondition", STEP_NOTE)
+            E.prove(f"{FN}/loop-step/{which}", goal, "postcondition", STEP_NOTE)
             return goal
         if which == "ghost-step":
             # ghost code (touches ghost arrays only): j takes position k+1 of the attachment order (swap), becomes the
@@ -691,7 +691,7 @@ def register(R: Registry):
         options=dict(
             registry=_Overlay(R, local),
             asserts_after={"dis": [(x, after_dis(x)) for x in AFTER_DIS], "i": [(x, after_pick(x)) for x in after_i], "t": [(x, after_tree(x)) for x in after_t]},
-            hints={"safety/argmin-some-unmasked-entry": argmin_hint, "loop0/preserved/every-attachment-so-far-was-greedy": greedy_hint, **step_hints()},
+            hints={"safety/argmin-some-unmasked-entry": argmin_hint, "loop-step/chosen-edge-joins-connected-unsaturated-to-unconnected": argmin_hint, "loop0/preserved/every-attachment-so-far-was-greedy": greedy_hint, **step_hints()},
         ),
         notes="n symbolic; dis abstract (edist >= 0, symmetric, zero diagonal); bf, K, exclude_soma, sort symbolic; names=None, and one concrete non-default SWCNames for the deprecated keyword. "
               "Tail real: Tree.from_data_frame by its verified contract, sort_tree inlined over C05's contract of sort_nodes_impl; K = 0 and K < -1 excluded by precondition.",
